@@ -830,7 +830,7 @@ def _gcm_encrypt(env, key, iv, aad, pt):
     i = len(env.of("gcm_encrypt"))
     # GCM is a stream mode: the ciphertext is exactly as long as the plaintext (empty for an empty plaintext)
     ct = ((b"G%d" % i) + b"c" * 8)[:len(pt)] if isinstance(pt, (bytes, bytearray)) and len(pt) < 8 else b"GC%d-long" % i
-    tag = b"GCMTAG-16-OCTET%d" % i
+    tag = b"GCMTAG-16-OCT%03d" % (i % 1000)
     env.rec("gcm_encrypt", key=key, iv=iv, aad=aad, pt=pt, ct=ct, tag=tag)
     return ct, tag
 
@@ -1018,7 +1018,7 @@ class _ChaCtx:
         env = CUR
         i = len(env.of("chacha_encrypt"))
         ct = ((b"X%d" % i) + b"c" * 8)[:len(pt)] if isinstance(pt, (bytes, bytearray)) and len(pt) < 8 else b"XC%d-long" % i
-        tag = b"CHACHATAG-16-OCT%d" % i
+        tag = b"CHACHATAG-OCT%03d" % (i % 1000)
         env.rec("chacha_encrypt", key=self.key, iv=self.nonce, aad=self.aad, pt=pt, ct=ct, tag=tag)
         return ct, tag
 
